@@ -1236,6 +1236,64 @@ ATTRS += [
 MODELLED_PRIMS = {"circumcenter": ("circumcenter", ["vec"] * 3, "vec")}
 
 
+def vertex_normals_function(fn):
+    """`attr_vertices.vertex_normals`, whole body, statement by statement (every other shape raises):
+       raise-guard on `interpolation`; the three sources of the face normals (custom_fnormals / cached faces['normals'] / face_normals(mesh));
+       the output header (vertices, float, 3, default 0); ONE call `interpolate_faces_to_vertices(mesh, fnormals, normals, weight=interpolation)`
+       (the translated function, applied componentwise); the final loop `normals[v] = Vec.normalized(normals[v])` (a positive rescaling: the
+       DIRECTION is kept); `return normals`."""
+    cx = Ctx(fn.name, {}, {})
+    body = body_of(fn)
+    pn = [a.arg for a in fn.args.args]
+    if len(pn) != 6: cx.err(f"parameters {pn}")
+    p_mesh, p_name, p_pers, p_interp, p_dense, p_custom = pn
+    if len(body) != 6: cx.err(f"{len(body)} top-level statements where 6 are expected (guard, face-normal sources, header, interpolation call, normalisation loop, return)")
+    g, src, hd, callst, loop, ret = body
+    # 1. guard
+    if not (isinstance(g, ast.If) and len(strip(g.body)) == 1 and isinstance(strip(g.body)[0], ast.Raise) and not g.orelse and isinstance(g.test, ast.Compare)
+            and len(g.test.ops) == 1 and isinstance(g.test.ops[0], ast.NotIn) and ast.unparse(g.test.left) == p_interp
+            and isinstance(g.test.comparators[0], (ast.Set, ast.Tuple, ast.List))
+            and sorted(ast.literal_eval(g.test.comparators[0])) == ["angle", "area", "uniform"]):
+        cx.err("first statement is not the guard `if interpolation not in {'uniform','area','angle'}: raise`", g)
+    # 2. sources of the face normals
+    ok = isinstance(src, ast.If) and ast.unparse(src.test) == f"{p_custom} is not None" and len(strip(src.body)) == 1 and len(src.orelse) == 1 \
+        and isinstance(src.orelse[0], ast.If) and ast.unparse(src.orelse[0].test) == "mesh.faces.has_attribute('normals')" \
+        and len(strip(src.orelse[0].body)) == 1 and len(strip(src.orelse[0].orelse)) == 1
+    if not ok: cx.err("the face normals are not chosen by `if custom_fnormals is not None / elif mesh.faces.has_attribute('normals') / else`", src)
+    a1, a2, a3 = strip(src.body)[0], strip(src.orelse[0].body)[0], strip(src.orelse[0].orelse)[0]
+    if not all(isinstance(a, ast.Assign) and isinstance(a.targets[0], ast.Name) for a in (a1, a2, a3)) or len({a.targets[0].id for a in (a1, a2, a3)}) != 1:
+        cx.err("the three branches do not bind the same name", src)
+    fvar = a1.targets[0].id
+    if ast.unparse(a1.value) != p_custom: cx.err("first source is not custom_fnormals", a1)
+    if ast.unparse(a2.value) != "mesh.faces.get_attribute('normals')": cx.err("second source is not the cached faces['normals']", a2)
+    if ast.unparse(a3.value).replace(" ", "") != f"face_normals(mesh,persistent={p_pers})": cx.err("third source is not face_normals(mesh, persistent=persistent)", a3)
+    # 3. header
+    h = header(cx, hd, "vec")
+    if h is None: cx.err("the output attribute is not created by the persistent/dense header", hd)
+    ovar, cont, pty, width, default = h
+    if (cont, pty, str(width), default) != ("vertices", "float", "3", 0): cx.err(f"output attribute is {cont}/{pty}/{width}/default {default}", hd)
+    # 4. the interpolation call
+    want = f"{ovar} = interpolate_faces_to_vertices(mesh, {fvar}, {ovar}, weight={p_interp})"
+    if ast.unparse(callst) != want: cx.err(f"not `{want}`", callst)
+    # 5. normalisation loop
+    ok = isinstance(loop, ast.For) and ast.unparse(loop.iter) == "mesh.id_vertices" and isinstance(loop.target, ast.Name) and len(strip(loop.body)) == 1
+    if ok:
+        v_ = loop.target.id
+        ok = ast.unparse(strip(loop.body)[0]) == f"{ovar}[{v_}] = Vec.normalized({ovar}[{v_}])"
+    if not ok: cx.err("the last loop is not `for v in mesh.id_vertices: normals[v] = Vec.normalized(normals[v])`", loop)
+    if not (isinstance(ret, ast.Return) and ast.unparse(ret.value) == ovar): cx.err("does not return the output attribute", ret)
+    text = ("/-- `mouette/attributes/attr_vertices.py: vertex_normals` (DIRECTION of the result: the final `Vec.normalized` is a positive rescaling); `fnormals` is\n"
+            "whichever of custom_fnormals / cached faces['normals'] / face_normals(mesh) the source selects (in that order) -/\n"
+            "def vertex_normals (vs : List V3) (faces : List Face) (area : Attr Rat) (angles : Attr Rat) (fnormals : Attr V3) (interpolation : String) : Attr (V3) :=\n"
+            "  let x1 : Attr (V3) := fun _ => V3.zero\n"
+            "  let x1 := liftV3 (fun fa va => interpolate_faces_to_vertices vs faces area angles fa va interpolation) fnormals x1\n"
+            "  let x1 := forRange (vs.length) x1 (fun x1 x2 => (let x1 := wr x1 x2 (x1 x2); x1))\n"
+            "  x1\n"
+            "/-- the sources of the face normals, in the order the source tests them -/\n"
+            'def vertexNormalsSources : List String := ["custom_fnormals", "faces[normals]", "face_normals(mesh, persistent)"]\n')
+    return text, ("vertex_normals", cont, pty, str(width), default)
+
+
 def translate_c07():
     """-> (lean text of Generated/C07Src.lean, sites, info)"""
     sites = []
@@ -1263,6 +1321,15 @@ def translate_c07():
             info["headers"] += F.headers; info["sources"] += F.sources
             return f"{txt.count('for')} loop(s), {txt.count('wr ') + txt.count('upd ')} write(s)"
         sites.append(T.site(f"{cfg['file'].split('/')[-1]}:{cfg['name']} (body)", run))
+    def run_vn():
+        f_ = AF + "attr_vertices.py"
+        if f_ not in trees: trees[f_] = T.load(f_)[0]
+        txt, hrow = vertex_normals_function(T.find_def(trees[f_], "vertex_normals"))
+        if not any(t.endswith("::interpolate_faces_to_vertices") for t in info["translated"]):
+            raise TranslateError("vertex_normals: interpolate_faces_to_vertices is not translated")
+        chunks.append(txt + "\n"); info["translated"].append(f_ + "::vertex_normals"); info["headers"].append(hrow)
+        return "guard, 3 sources, header, 1 call of the translated interpolation, normalisation loop"
+    sites.append(T.site("attr_vertices.py:vertex_normals (body)", run_vn))
     hdr = ("/-- the attribute headers (`persistent` / `dense` switch): (function, container, element type, width, default as a multiple of pi);\n"
            "the translator has checked that the three constructions of each function agree on all four -/\n"
            "def headers : List (String × String × String × String × Nat) := [" +
